@@ -26,7 +26,10 @@ RULE = (
     "outcome, completion; ties swept over iteration offsets and over listeners that yield); Hypothesis adds cases "
     "with drawn timings. Role 'reverse' = a ConnectToPeer.Response from the server on behalf of a peer whose "
     "address accepts / refuses / hangs / fails the PeerPierceFirewall write / has no port, x ports x preference x "
-    "type. Oracle (outcome table computed from the case; events closer than 5 ms are ties and both orders are "
+    "type, after a history of 0..2 earlier connections with that same peer (every sequence enumerated: opened by our "
+    "own create_peer_connection or by the peer's PeerInit, type P or D, still open or closed again by the peer) in "
+    "either connect mode: the answer is owed whatever connections exist already, and those connections are not "
+    "residue. Oracle (outcome table computed from the case; events closer than 5 ms are ties and both orders are "
     "accepted): the request returns a connection iff the direct attempt succeeds within 10 s or the indirect one "
     "within 60 s of its own start (fallback: the indirect attempt starts when the direct one failed; race: the "
     "earlier success wins), otherwise it raises PeerConnectionError and nothing else, a cancelled request raises "
@@ -121,6 +124,17 @@ def _sanitise(case):
     if role == 'reverse':
         c['ports'] = _pick(case.get('ports'), REV_PORTS, 'clear')
         c['direct'] = {'kind': _pick(d.get('kind'), REV_DIRECT, 'accept'), 'ms': _int(d.get('ms', 2), 1, 9500, 2)}
+        c['mode'] = _pick(case.get('mode'), ('fallback', 'race'), 'race')
+        pre = []
+        raw = case.get('pre')
+        for p in (raw if isinstance(raw, list) else [])[:2]:
+            if not isinstance(p, dict):
+                continue
+            how = _pick(p.get('how'), ('out', 'in'), 'in')
+            if c['ports'] == 'none':
+                how = 'in'          # a peer without a listening port can only have connected to us
+            pre.append({'how': how, 'typ': _pick(p.get('typ'), ('P', 'D'), 'P'), 'closed': bool(p.get('closed'))})
+        c['pre'] = pre
         return c
     c['mode'] = _pick(case.get('mode'), ('fallback', 'race'), 'fallback')
     c['ports'] = _pick(case.get('ports'), PORTS, 'clear')
@@ -290,7 +304,7 @@ class _Observer:
         self.facts = {}
 
 
-def _snapshot(world, network, label, returned, returned_tr, server_link, final, announced_ms=None):
+def _snapshot(world, network, label, returned, returned_tr, server_link, final, announced_ms=None, owned=()):
     """-> [(checkpoint, what, detail, ms at which the connection was announced by PeerInitializedEvent | None)]"""
     from aioslsk.network.connection import ConnectionState, PeerConnectionState
     M = simworld.M()
@@ -313,8 +327,8 @@ def _snapshot(world, network, label, returned, returned_tr, server_link, final, 
     for conn in list(network.peer_connections):
         if conn._writer is not None:
             registered.add(id(conn._writer.transport))
-        if conn is returned:
-            continue
+        if conn is returned or any(conn is o for o in owned):
+            continue        # the result of the request / a connection that existed before it
         if conn.incoming and conn.connection_state == PeerConnectionState.AWAITING_INIT and not final:
             continue    # accepted, init message still in flight: judged at the end
         if not conn.incoming and conn.state == ConnectionState.CONNECTING:
@@ -731,10 +745,11 @@ def _run_reverse(c) -> CaseResult:
     obs = _Observer()
     reachable = c['ports'] != 'none'
     t_done = 1.0 + (CONNECT_TIMEOUT_MS if (dk == 'hang' and reachable) else float(c['direct']['ms']))
+    pre_open = []       # connections to / from the asking peer that are open when it asks (identity only)
 
     async def main(world: simworld.World):
         loop = world.loop
-        settings, network, received, inits, states, keep = _setup_network(world, c, True)
+        settings, network, received, inits, states, keep = _setup_network(world, c, c['mode'] == 'race')
         await network.initialize()
         network.server_connection.start_reader_task()
         server_link = world.net.links[0]
@@ -742,23 +757,51 @@ def _run_reverse(c) -> CaseResult:
         peer = Peer(world, PEER_NAME, PEER_IP,
                     port=CLEAR_PORT if c['ports'] in ('clear', 'both') else 0,
                     obf_port=OBF_PORT if c['ports'] in ('obf', 'both') else 0,
-                    direct={'accept': 'accept', 'initfail': 'accept', 'refuse': 'refuse', 'hang': 'hang'}[dk],
-                    direct_delay=c['direct']['ms'] / 1000.0, indirect='silent')
-        peer.init_fail = dk == 'initfail'
+                    direct='accept', direct_delay=0.002, indirect='silent')
         peer.asked_typ = typ
         world.peers[PEER_NAME] = peer
-        _install_connect_hops(PEER_IP, c['d_hops'])
         await asyncio.sleep(0.01)
+
+        # history: connections to / from the asking peer that exist (or existed) before it asks us to connect back
+        for p in c['pre']:
+            before = list(network.peer_connections)
+            n_links = len(peer.links)
+            if p['how'] == 'out':
+                try:
+                    await asyncio.wait_for(network.create_peer_connection(PEER_NAME, p['typ']), 30.0)
+                except Exception as exc:  # noqa: BLE001 - judged by the request role, only noted here
+                    obs.facts.setdefault('pre_failed', []).append(f'{type(exc).__name__}: {exc}')
+                    continue
+            else:
+                peer.connect(p['typ'], port=MY_PORTS[0])
+            await asyncio.sleep(0.02)
+            fresh = [cn for cn in network.peer_connections if not any(cn is b for b in before)]
+            if p['closed']:
+                for link in peer.links[n_links:]:
+                    link.ep.close()         # the peer closes its side; we see EOF
+                await asyncio.sleep(0.02)
+            pre_open.extend(cn for cn in fresh if cn in network.peer_connections)
+        obs.facts['pre_open'] = [(cn.connection_type, 'in' if cn.incoming else 'out', cn.connection_state.name)
+                                 for cn in pre_open]
+        obs.residue += _snapshot(world, network, 'before-request', None, None, server_link, False, owned=pre_open)
+        n_pierce_links = len(peer.links)
+
+        peer.set_direct({'accept': 'accept', 'initfail': 'accept', 'refuse': 'refuse', 'hang': 'hang'}[dk],
+                        c['direct']['ms'] / 1000.0)
+        peer.init_fail = dk == 'initfail'
+        _install_connect_hops(PEER_IP, c['d_hops'])
+        n_connects = len(world.net.opened)
         t0 = loop.time()
         world.server.send(M.ConnectToPeer.Response(
             username=PEER_NAME, typ=typ, ip=PEER_IP, port=peer.port, ticket=ticket, privileged=False,
             obfuscated_port_amount=1 if peer.obf_port else 0, obfuscated_port=peer.obf_port))
         await asyncio.sleep((t_done + 200.0) / 1000.0)
-        conns = list(network.peer_connections)
+        conns = [cn for cn in network.peer_connections if not any(cn is o for o in pre_open)]
         returned = conns[0] if (len(conns) == 1 and dk == 'accept' and reachable) else None
         returned_tr = _client_transport(returned) if returned is not None else None
         obs.facts['registry_after'] = [repr(cn) for cn in conns]
-        obs.residue += _snapshot(world, network, 'after-attempt', returned, returned_tr, server_link, False)
+        obs.residue += _snapshot(world, network, 'after-attempt', returned, returned_tr, server_link, False,
+                                 owned=pre_open)
         obs.facts['tasks'] = len(network._create_peer_connection_tasks)
 
         async def keepalive_job():
@@ -768,7 +811,7 @@ def _run_reverse(c) -> CaseResult:
         keepalive_task = asyncio.ensure_future(keepalive_job())
         # the peer's view is taken before the probe traffic
         obs.facts['pierces'] = [l.init.ticket for l in peer.links if isinstance(l.init, M.PeerPierceFirewall.Request)]
-        obs.facts['other_inits'] = [repr(l.init)[:100] for l in peer.links
+        obs.facts['other_inits'] = [repr(l.init)[:100] for l in peer.links[n_pierce_links:]
                                     if l.init is not None and not isinstance(l.init, M.PeerPierceFirewall.Request)]
         if returned is not None:
             _check_connection_fields(obs, returned, typ, network)
@@ -777,7 +820,7 @@ def _run_reverse(c) -> CaseResult:
                 obs.problems.append(('initialized-event-count', f'{n_init}'))
             await _check_usable(world, loop, obs, returned, peer, typ, received, loop.time())
         await asyncio.sleep(HORIZON_S)
-        obs.residue += _snapshot(world, network, 'final', returned, returned_tr, server_link, True)
+        obs.residue += _snapshot(world, network, 'final', returned, returned_tr, server_link, True, owned=pre_open)
         if returned is not None:
             from aioslsk.network.connection import ConnectionState
             if returned not in network.peer_connections or returned.state != ConnectionState.CONNECTED:
@@ -785,7 +828,7 @@ def _run_reverse(c) -> CaseResult:
         keepalive_task.cancel()
         obs.facts['cannot'] = [(m.ticket, m.username) for m in world.server.received(M.CannotConnect.Request)]
         obs.facts['connects'] = [(round((t - t0) * 1000.0, 3), port, outcome)
-                                 for t, host, port, outcome in world.net.opened if host == PEER_IP]
+                                 for t, host, port, outcome in world.net.opened[n_connects:] if host == PEER_IP]
         obs.facts['tasks_final'] = len(network._create_peer_connection_tasks)
         await network.disconnect()
         del keep
@@ -796,11 +839,24 @@ def _run_reverse(c) -> CaseResult:
     ctx = f'reverse:{dk if reachable else "no-port"}'
     info = f'typ={typ} ports={c["ports"]} prefer_obf={c["prefer_obf"]} pierces={pierces} cannot={cannot} ' \
            f'connects={obs.facts.get("connects")} registry={obs.facts.get("registry_after")}'
+    pre_facts = obs.facts.get('pre_open', [])
+    info += f' history={c["pre"]} open-before={pre_facts}'
     success = dk == 'accept' and reachable
+    # an answer is owed whatever connections to the asking peer exist already: the kind names the history class
+    if any(t == typ for t, _, _ in pre_facts):
+        hist = ':existing-connection-of-asked-type'
+    elif pre_facts:
+        hist = ':existing-connection-of-other-type'
+    elif c['pre']:
+        hist = ':earlier-connection-closed'
+    else:
+        hist = ''
     if not pierces and not cannot:
-        res.violate(f'C11/reverse:neither-pierce-nor-cannot-connect:{dk if reachable else "no-port"}', info)
+        res.violate(f'C11/reverse:neither-pierce-nor-cannot-connect:{dk if reachable else "no-port"}{hist}', info)
     if pierces and cannot:
-        res.violate(f'C11/reverse:both-pierce-and-cannot-connect:{dk if reachable else "no-port"}', info)
+        res.violate(f'C11/reverse:both-pierce-and-cannot-connect:{dk if reachable else "no-port"}{hist}', info)
+    if obs.facts.get('pre_failed'):
+        res.label('reverse-history-step-failed')
     if success:
         if pierces and pierces != [ticket]:
             res.violate('C11/reverse:wrong-pierce-ticket', info)
@@ -824,8 +880,11 @@ def _run_reverse(c) -> CaseResult:
     for suffix, detail in obs.problems:
         res.violate(f'C11/{suffix}', f'{detail} | reverse role direct={dk} typ={typ}')
     seen = set()
+    earlier = {(what, detail) for label, what, detail, _ in obs.residue if label == 'before-request'}
     for label, what, detail, _ in obs.residue:
-        kind = f'C11/residue:{what}:{ctx}'
+        if label != 'before-request' and (what, detail) in earlier:
+            continue        # left by the history (a request-role matter), reported once under its own context
+        kind = f'C11/residue:{what}:' + ('reverse-history' if label == 'before-request' else ctx)
         if kind not in seen:
             seen.add(kind)
             res.violate(kind, f'{label}: {detail} | {info}')
@@ -833,7 +892,11 @@ def _run_reverse(c) -> CaseResult:
     res.nontrivial = True
     res.label('role:reverse', 'reverse-direct:' + (dk if reachable else 'no-port'),
               'ports:' + c['ports'] + ('+prefer-obf' if c['prefer_obf'] else ''), 'typ:' + typ,
-              'reverse-outcome:' + ('pierce' if pierces else 'cannot-connect' if cannot else 'nothing'))
+              'reverse-outcome:' + ('pierce' if pierces else 'cannot-connect' if cannot else 'nothing'),
+              'reverse-history:%d-open/%d-closed' % (len(pre_facts), len(c['pre']) - len(pre_facts)),
+              'reverse-history' + (hist or ':none'))
+    for p in c['pre']:
+        res.label('reverse-pre:%s-%s-%s' % (p['how'], p['typ'], 'closed' if p['closed'] else 'open'))
     return res
 
 
@@ -980,6 +1043,20 @@ def table():
                     for typ in TYPES:
                         out.append({'role': 'reverse', 'typ': typ, 'direct': {'kind': dkind, 'ms': d_ms},
                                     'ports': ports, 'prefer_obf': prefer, 'd_hops': 0, 'ev_hops': len(out) % 3})
+    # 6. reverse role with a history: every sequence of 1..2 earlier connections to / from the asking peer (opened by
+    #    us or by the peer, type P or D, still open or closed again) x asked type x outcome of the connect-back
+    steps = [{'how': how, 'typ': t, 'closed': closed}
+             for how in ('out', 'in') for t in ('P', 'D') for closed in (False, True)]
+    histories = [[a] for a in steps] + [[a, b] for a in steps for b in steps]
+    rev_ports = [('clear', False), ('both', True), ('obf', False), ('both', False), ('none', False)]
+    for pre in histories:
+        for typ in TYPES:
+            for dkind in REV_DIRECT:
+                ports, prefer = rev_ports[n % len(rev_ports)]
+                out.append({'role': 'reverse', 'typ': typ, 'direct': {'kind': dkind, 'ms': [2, 40, 700][n % 3]},
+                            'ports': ports, 'prefer_obf': prefer, 'mode': 'race' if n % 2 else 'fallback',
+                            'pre': [dict(p) for p in pre], 'd_hops': 0, 'ev_hops': n % 3})
+                n += 1
     return out
 
 
@@ -1031,6 +1108,10 @@ def reverse_strategy(draw):
         'prefer_obf': draw(st.booleans()),
         'd_hops': draw(_hops),
         'ev_hops': draw(st.sampled_from([0, 0, 1, 2])),
+        'mode': draw(st.sampled_from(['race', 'fallback'])),
+        'pre': draw(st.lists(st.fixed_dictionaries({
+            'how': st.sampled_from(['out', 'in']), 'typ': st.sampled_from(['P', 'P', 'D']),
+            'closed': st.sampled_from([False, False, True])}), max_size=2)),
     }
 
 
